@@ -1606,6 +1606,24 @@ func (sv *server) judgeChain(idx int, g tgt, hops []hop) {
 	httpLayer := map[int]bool{400: true, 505: true, 431: true, 414: true, 501: true}
 	switch sv.mode {
 	case "single":
+		// Whenever the file handler itself ran for a hop (it reports "File requested"), its answer
+		// must be the configured file: a 3xx/4xx made up by the handler is not an HTTP-layer rejection.
+		for _, h := range hops {
+			ran := false
+			for _, n := range h.Notices {
+				if strings.Contains(n, "File requested:") {
+					ran = true
+				}
+			}
+			ok := h.Status >= 200 && h.Status < 300 || h.Status == 304 || h.Status == 412 || h.Status == 416
+			if ran && !ok && h.inf.shell == "" {
+				sv.violate(idx, "single-file-mode-not-served", fmt.Sprintf("the file handler ran for %q but answered %d instead of the configured file", trunc(h.Target, 80), h.Status), g, hops)
+				return
+			}
+			if ran {
+				r.Count("single_file_handler_runs_checked", 1)
+			}
+		}
 		switch {
 		case is2xx:
 			r.Count("single_file_chains_ending_in_the_file", 1)
